@@ -105,11 +105,14 @@ func TestVerifC02NoiseTamper(t *testing.T) {
 	pAll := []memconn.Policy{memconn.Fixed(1), memconn.Fixed(16), memconn.Rel(0), memconn.Rel(16), memconn.Fixed(70000)}
 	pBig := []memconn.Policy{memconn.Fixed(4096), memconn.Rel(0), memconn.Fixed(70000)}
 	plans := []plan{
-		{small, "noise", pAll, [][]int{{0}, {1}, {7}}, []string{"i2r", "r2i"}},
+		{small, "noise", pAll, [][]int{{0}, {1}}, []string{"i2r"}},
+		{small, "noise", []memconn.Policy{pAll[2], pAll[4]}, [][]int{{0}}, []string{"r2i"}},
 		{big, "noise", pBig, [][]int{{0}, {7}}, []string{"i2r"}},
 		{small, "psk>noise", []memconn.Policy{pAll[2], pAll[4]}, [][]int{{0}, {1}}, []string{"i2r"}},
 	}
 	if thorough {
+		plans[0] = plan{small, "noise", pAll, [][]int{{0}, {1}, {7}}, []string{"i2r", "r2i"}}
+		plans = append(plans[:1], plans[2:]...)
 		plans[1] = plan{big, "noise", append(append([]memconn.Policy{}, pBig...), pAll[0], pAll[3]), [][]int{{0}, {1}, {7}, {4096}}, []string{"i2r", "r2i"}}
 		plans[2] = plan{small, "psk>noise", pAll, [][]int{{0}, {1}, {7}}, []string{"i2r", "r2i"}}
 		plans = append(plans, plan{big, "psk>noise", pBig, [][]int{{0}, {7}}, []string{"i2r"}})
@@ -131,7 +134,7 @@ func TestVerifC02NoiseTamper(t *testing.T) {
 		L := c02Sum(p.sc.Writes)
 		payload := memconn.Pattern(0x7A3, L)
 		// probe run: learn the frame sizes on the wire (ciphertext differs per session, sizes do not)
-		probe := memconn.RunTamper(t, c02Setup(ti, tr, p.stack, "i2r", []int{0}, p.sc.Writes), payload, p.sc.Writes, pAll[4], c02Cut(p.stack), memconn.Edit{Kind: "none"}, true, &b.Buf)
+		probe := memconn.RunTamper(t, c02Setup(ti, tr, p.stack, "i2r", []int{0}, c02Frames(p.sc.Writes), false), payload, p.sc.Writes, pAll[4], c02Cut(p.stack), memconn.Edit{Kind: "none"}, true, &b.Buf)
 		if probe.Frames == nil {
 			r.Cap("infrastructure: probe run of %s/%s captured nothing (%s %s)", p.stack, p.sc.Name, probe.Infra, probe.Panic)
 			continue
@@ -148,7 +151,7 @@ func TestVerifC02NoiseTamper(t *testing.T) {
 							return
 						}
 						c := c02TCase{Stack: p.stack, Dir: dir, Scenario: p.sc.Name, Writes: p.sc.Writes, Edit: e, EditStr: e.String(), Policy: pol.Name, Short: short}
-						res := memconn.RunTamper(t, c02Setup(ti, tr, p.stack, dir, short, p.sc.Writes), payload, p.sc.Writes, pol, c02Cut(p.stack), e, false, &b.Buf)
+						res := memconn.RunTamper(t, c02Setup(ti, tr, p.stack, dir, short, c02Frames(p.sc.Writes), false), payload, p.sc.Writes, pol, c02Cut(p.stack), e, false, &b.Buf)
 						if cls := b.Tamper(p.stack, res, e, L, c); cls != "" && res.Changed {
 							c.Outcome = cls
 							b.Distinct(c, p.stack, p.sc.Name, dir, e, cls)
